@@ -119,6 +119,12 @@ func (dc *TraditionalDnsConn) exchange(ctx context.Context, q []byte) (*[]byte, 
 		// Write error usually is fatal. Abort and close this connection.
 		dc.CloseWithErr(fmt.Errorf("write err, %w", err))
 		// A reply may have been delivered while we were writing.
+		// The reader may have read a reply already and be about to hand it over.
+		// It returns now that the connection is closed, wait for that.
+		select {
+		case <-dc.readLoopDone:
+		case <-ctx.Done():
+		}
 		select {
 		case r := <-respChan:
 			orgId := binary.BigEndian.Uint16(q)
@@ -160,6 +166,12 @@ wait:
 		if err != nil {
 			dc.CloseWithErr(fmt.Errorf("write err, %w", err))
 			// A reply may have been delivered while we were re-sending.
+			// The reader may have read a reply already and be about to hand it over.
+			// It returns now that the connection is closed, wait for that.
+			select {
+			case <-dc.readLoopDone:
+			case <-ctx.Done():
+			}
 			select {
 			case r := <-respChan:
 				orgId := binary.BigEndian.Uint16(q)
